@@ -1,4 +1,5 @@
 import SSVerif.Props.C03
+import SSVerif.Props.C03Frames
 open SSVerif.Hist
 #print axioms C03_segs_tile
 #print axioms C03_tile_consequences
@@ -12,3 +13,9 @@ open SSVerif.Hist
 #print axioms C03_T2_T3
 #print axioms C03_only_start_markers
 #print axioms wfHistB_iff
+#print axioms SSVerif.C03Frames.C03_frames_add_up
+#print axioms SSVerif.C03Frames.C03_frames_add_up_full
+#print axioms SSVerif.C03Frames.C03_frames_match_front_end
+#print axioms SSVerif.C03Frames.C03_last_segment_within_M
+#print axioms SSVerif.C03Frames.search_frame_counts_steps
+#print axioms SSVerif.C03Frames.returns_sum
